@@ -118,7 +118,9 @@ class C07:
                     calls.append({"c": "label", "k": rng.choice(STRS), "v": rng.choice(STRS)})
                 else:
                     calls.append({"c": "slice", "paths": [rng.choice(STRS) for _ in range(rng.randint(0, 2))]})
-            cases.append({"kind": "launch", "calls": calls})
+            # (positions at which an intermediate Launch is built from the same builder and discarded)
+            cases.append({"kind": "launch", "calls": calls,
+                          "snapshots": [i for i in range(len(calls)) if rng.random() < 0.25]})
         for _ in range(1000 if tier == "thorough" else 200):
             cases.append({"kind": "layer", "types": None if rng.random() < 0.3 else [rng.choice([True, False]) for _ in range(3)],
                           "metadata": None if rng.random() < 0.3 else self.meta(rng)})
@@ -155,6 +157,7 @@ class C07:
                 else:
                     calls.append({"c": "slice", "paths": [jb(s) for s in x["paths"]]})
             h["calls"] = calls
+            h["snapshots"] = c.get("snapshots", [])
         elif c["kind"] == "layer":
             h["types"] = c["types"]
             h["metadata"] = None if c["metadata"] is None else jtree(c["metadata"])
@@ -247,7 +250,7 @@ class C07:
     def shrink(self, c):
         if "calls" in c:
             for i in range(len(c["calls"])):
-                yield dict(c, calls=c["calls"][:i] + c["calls"][i + 1:])
+                yield dict(c, calls=c["calls"][:i] + c["calls"][i + 1:], snapshots=[s - (s > i) for s in c.get("snapshots", []) if s != i])
             for i, x in enumerate(c["calls"]):
                 if x.get("calls"):
                     for j in range(len(x["calls"])):
